@@ -235,3 +235,47 @@ func HarnessC06Bind() {
 	}
 	zz.Observe("xrs", len(xs))
 }
+
+// HarnessC06DeletedBehindCache: a bound claim has been deleted - and with it
+// its XR - but the reconciler still reads the bound claim from a cache that
+// lags the deletion (the claim may have been created again since, as a new
+// object). That reconcile does not bring the XR back: an XR exists only for a
+// claim that durably references it.
+//
+//gosym:harness
+//gosym:cover claim-gone claim-recreated
+func HarnessC06DeletedBehindCache() {
+	s := kube.New()
+	cm := claim.New(claim.WithGroupVersionKind(zzClaimGVK))
+	cm.SetName("cm")
+	cm.SetNamespace("team")
+	cm.SetUID("uid-claim")
+	cm.SetFinalizers([]string{finalizer})
+	cm.Object["spec"] = map[string]any{"param": "v", "resourceRef": map[string]any{"apiVersion": "example.org/v1", "kind": "XR", "name": "xr-pre"}}
+	s.Put(cm)
+	cached := runtime.DeepCopyJSON(s.Doc("example.org", "Claim", "team", "cm"))
+	// the claim (and its XR) are deleted; what the cache holds is history
+	del := claim.New(claim.WithGroupVersionKind(zzClaimGVK))
+	del.SetName("cm")
+	del.SetNamespace("team")
+	s.Put(del)
+	s.Touch("example.org", "Claim", "team", "cm")
+	recreated := zz.Bool("claim.recreated")
+	if recreated {
+		zz.Cover("claim-recreated")
+		again := claim.New(claim.WithGroupVersionKind(zzClaimGVK))
+		again.SetName("cm")
+		again.SetNamespace("team")
+		again.SetUID("uid-claim-2")
+		again.Object["spec"] = map[string]any{"param": "v"}
+		s.Put(again)
+		s.Touch("example.org", "Claim", "team", "cm")
+	} else {
+		zz.Cover("claim-gone")
+		_ = s.Delete(context.Background(), del)
+	}
+	c := &zzStale{Store: s, stale: cached}
+	r := zzClaimReconciler(c, zz.Bool("syncer.ssa"))
+	_, _ = r.Reconcile(context.Background(), reconcile.Request{NamespacedName: types.NamespacedName{Namespace: "team", Name: "cm"}})
+	zz.Assert("deleted-claims-xr-is-not-brought-back", s.Count("example.org", "XR") == 0)
+}
